@@ -19,12 +19,70 @@ pub struct Ctx {
     pub tier: Tier,
     pub seed: u64,
     pub threads: usize,
+    /// process-level dimension of this run ("" = the plain process; "logging" = a TRACE subscriber for
+    /// `tracing` and `log` is installed; "stats" = `serialize_config(true)` was called): state that can only
+    /// be set once per process, so each value is its own engine run over a reduced plan (bin/check merges them)
+    pub dim: String,
 }
 
 impl Ctx {
     pub fn thorough(&self) -> bool {
         self.tier == Tier::Thorough
     }
+    pub fn plain(&self) -> bool {
+        self.dim.is_empty()
+    }
+}
+
+struct CountWriter(usize);
+impl std::fmt::Write for CountWriter {
+    fn write_str(&mut self, s: &str) -> std::fmt::Result {
+        self.0 += s.len();
+        Ok(())
+    }
+}
+struct EvalVisit;
+impl tracing::field::Visit for EvalVisit {
+    fn record_debug(&mut self, _field: &tracing::field::Field, value: &dyn std::fmt::Debug) {
+        use std::fmt::Write;
+        let mut w = CountWriter(0);
+        let _ = write!(w, "{value:?}");
+        std::hint::black_box(w.0);
+    }
+}
+struct EvalLayer;
+impl<S: tracing::Subscriber> tracing_subscriber::Layer<S> for EvalLayer {
+    fn on_new_span(&self, attrs: &tracing::span::Attributes<'_>, _id: &tracing::span::Id, _ctx: tracing_subscriber::layer::Context<'_, S>) {
+        attrs.record(&mut EvalVisit);
+    }
+    fn on_record(&self, _id: &tracing::span::Id, values: &tracing::span::Record<'_>, _ctx: tracing_subscriber::layer::Context<'_, S>) {
+        values.record(&mut EvalVisit);
+    }
+    fn on_event(&self, event: &tracing::Event<'_>, _ctx: tracing_subscriber::layer::Context<'_, S>) {
+        event.record(&mut EvalVisit);
+    }
+}
+
+/// Apply the process-level dimension named by VERIF_DIM; returns its name.
+pub fn apply_dim() -> String {
+    let dim = std::env::var("VERIF_DIM").unwrap_or_default();
+    match dim.as_str() {
+        "" => {}
+        "logging" => {
+            // every span and event of every level is enabled; their field expressions are evaluated at the call
+            // site and every value is rendered (into a byte counter: no line is built, nothing is written).
+            // `init` also routes the `log` crate (deku's "logging" feature) into the same subscriber.
+            use tracing_subscriber::layer::SubscriberExt;
+            use tracing_subscriber::util::SubscriberInitExt;
+            tracing_subscriber::registry().with(EvalLayer).init();
+        }
+        "stats" => rs1090::decode::serialize_config(true),
+        other => {
+            eprintln!("unknown VERIF_DIM {other}");
+            std::process::exit(2);
+        }
+    }
+    dim
 }
 
 pub struct Viol {
